@@ -7,8 +7,12 @@ package mv
 // cases check that this Go transcription and the Coq one agree.
 
 import (
+	"encoding/hex"
 	"fmt"
 	"math/big"
+	"net"
+	"strings"
+	"time"
 
 	"gocqlverif/hlib"
 )
@@ -571,6 +575,11 @@ func denoteNative(id int, v *Val, dec bool) (*CV, bool, bool) {
 		if v.K == "time" && !v.isZeroTime() {
 			return &CV{K: "int", Z: v.millis()}, false, true
 		}
+	case id == 0x11 && dec && v.K == "str" && !v.T.Named: // read back as "2006-01-02" (years 0..9999 only)
+		if tm, err := time.Parse("2006-01-02", string(v.S)); err == nil {
+			return &CV{K: "int", Z: floorDiv(big.NewInt(tm.Unix()), big.NewInt(86400))}, false, true
+		}
+		return bad()
 	case id == 0x11: // date: int64 ms since epoch, time.Time -> day number, counted with floor
 		if v.K == "int" && v.T.IK == I64 && !v.T.Named {
 			return &CV{K: "int", Z: floorDiv(v.Z, big.NewInt(86400000))}, false, true
@@ -586,6 +595,13 @@ func denoteNative(id int, v *Val, dec bool) (*CV, bool, bool) {
 			return &CV{K: "dur", M: v.M, D: v.D, N: v.N}, false, true
 		}
 	case id == 0x0C || id == 0x0F:
+		if dec && v.K == "str" && !v.T.Named { // read back as the canonical text form
+			h := strings.ReplaceAll(string(v.S), "-", "")
+			if b, err := hex.DecodeString(h); err == nil && len(b) == 16 && len(v.S) == 36 {
+				return &CV{K: "bytes", S: b}, false, true
+			}
+			return bad()
+		}
 		switch v.K {
 		case "uuid", "arr16":
 			return &CV{K: "bytes", S: v.S}, false, true
@@ -595,6 +611,15 @@ func denoteNative(id int, v *Val, dec bool) (*CV, bool, bool) {
 			}
 		}
 	case id == 0x10:
+		if dec && v.K == "str" && !v.T.Named {
+			if ip := net.ParseIP(string(v.S)); ip != nil {
+				if v4 := ip.To4(); v4 != nil {
+					return &CV{K: "bytes", S: []byte(v4)}, false, true
+				}
+				return &CV{K: "bytes", S: []byte(ip.To16())}, false, true
+			}
+			return bad()
+		}
 		if v.K == "ip" {
 			b := v.S
 			if len(b) == 16 {
